@@ -11,6 +11,9 @@ PredSet(name) ==
     CASE name = "p2a" -> {P(<<1, 0>>, 0), P(<<0, 1>>, 1), P(<<1, 1>>, 1)}
       [] name = "p2b" -> {P(<<1, 0>>, 0), P(<<0, 1>>, 1), P(<<1, 1>>, 1), P(<<1, -1>>, 0), P(<<-1, 0>>, 0)}
       [] name = "p2s" -> {P(<<1, 0>>, 0), P(<<1, 1>>, 1)}
+      [] name = "p1x" -> {P(<<1>>, -1), P(<<1>>, 0), P(<<1>>, 1), P(<<-1>>, 0), P(<<-1>>, -1), P(<<0>>, 0), P(<<0>>, -1)}
+      [] name = "p1y" -> {P(<<1>>, 0), P(<<1>>, 1), P(<<-1>>, 0), P(<<-1>>, -1)}
+      [] name = "p2x" -> {P(<<1, 0>>, 0), P(<<-1, 0>>, 0), P(<<0, 1>>, 0), P(<<1, 1>>, 1), P(<<-1, -1>>, -2), P(<<1, 0>>, -1)}
       [] name = "p1a" -> {P(<<1>>, 0), P(<<1>>, 1), P(<<-1>>, 0)}
       [] name = "p1s" -> {P(<<1>>, 0), P(<<-1>>, -1)}
       [] name = "pp2s" -> {Aff(<<<<1, 0>>, <<0, 1>>>>, <<0, 1>>), P(<<1, 1>>, 1)}
@@ -23,6 +26,8 @@ TermSet(name) ==
       [] name = "tp2s" -> PredSet("p2s") \cup {Aff(<<<<0, 1>>>>, <<0>>)}          \* terminals R^2 -> R^1 that coincide with predicates of p2s
       [] name = "t21" -> {Aff(<<<<1, 1>>>>, <<0>>), Aff(<<<<1, 0>>>>, <<-1>>)}
       [] name = "t12" -> {Aff(<<<<1>>, <<-1>>>>, <<0, 0>>), Aff(<<<<0>>, <<1>>>>, <<1, 1>>)}
+      [] name = "t11o" -> {Aff(<<<<-2>>>>, <<1>>)}
+      [] name = "t11s" -> {Aff(<<<<1>>>>, <<0>>), Aff(<<<<-2>>>>, <<1>>)}
       [] name = "t11" -> {Aff(<<<<1>>>>, <<0>>), Aff(<<<<-2>>>>, <<1>>), Aff(<<<<0>>>>, <<1>>)}
       [] name = "t22d" -> {Aff(<<<<2, 4>>, <<6, 2>>>>, <<4, 2>>), Aff(<<<<1, 2>>, <<3, 1>>>>, <<2, 1>>)}      \* no zero entries: safe divisors
       [] name = "t22ds" -> {Aff(<<<<1, 2>>, <<3, 1>>>>, <<2, 1>>)}
